@@ -242,6 +242,9 @@ type Program struct {
 	Leaves  []*T   `json:"leaves"`
 	Tracked []bool `json:"tracked"`
 	Nodes   []Node `json:"nodes"`
+	// TrOverride, when set, gives the tracked flag of every tensor directly
+	// (histories with back-propagations in the middle, see C08).
+	TrOverride []bool `json:"tr_override,omitempty"`
 }
 
 func (p *Program) NTensors() int { return len(p.Leaves) + len(p.Nodes) }
@@ -268,6 +271,9 @@ func (p *Program) Forward() (vals []*T, ok bool) {
 // (no back-propagation in between): a result of a differentiable operation is
 // tracked iff some operand is; comparison results are untracked.
 func (p *Program) TrackedAll() []bool {
+	if p.TrOverride != nil {
+		return p.TrOverride
+	}
 	tr := make([]bool, 0, p.NTensors())
 	tr = append(tr, p.Tracked...)
 	for _, n := range p.Nodes {
